@@ -483,6 +483,7 @@ func (x *Exec) loopHead(fr *Frame, st *State, b *ssa.BasicBlock, pred *ssa.Basic
 	for _, inv := range invs {
 		x.specAssume(fr, st, inv)
 	}
+	x.withSpecErr("use", func() { x.applyUses(fr, st, x.specEnvHere(fr, st, nil), fmt.Sprintf("loop%d", ord)) })
 	return true
 }
 
@@ -696,7 +697,7 @@ func (x *Exec) bytesEq(st *State, a, b Val) string {
 	}}})
 	st.assume(sImp(p, sEq(a.Len, b.Len)))
 	st.assume(sImp(sNot(p), sOr(sNot(sEq(a.Len, b.Len)), sAnd(sLe("0", w), sLt(w, a.Len), sNot(body(w))))))
-	st.addIdxSeq(w, a.Arr)
+	st.addIdxSeq(sAdd(a.Off, w), a.Arr)
 	return p
 }
 
@@ -806,7 +807,7 @@ func (x *Exec) doAppend(fr *Frame, st *State, in ssa.Instruction, s, t Val) Val 
 		}
 	}
 	st.hv++
-	st.addIdxSeq(s.Len, s.Arr)
+	st.addIdxSeq(sAdd(s.Off, s.Len), s.Arr)
 	return Val{K: KSlice, T: s.T,
 		Arr: sIte(fits, s.Arr, nr),
 		Off: sIte(fits, s.Off, "0"),
